@@ -273,6 +273,21 @@ def _beliefs(R, f_escape: Escape):
             else:
                 kinds.add('?:' + text(v))
         ok = kinds <= {'int', 'str', 'NoneType'}
+        if not ok:
+            return (False, f'process_term_match assigns {sorted(kinds)} to the index')
+        if site.func.endswith('resolve_by_type_pair'):
+            # mixed None / non-None pairs arise only when a FUNCTION/KEYWORD symbol meets a variable-like one:
+            # the SymbolError guard must come before the lag/lead resolution
+            c = Fn(R, f'{P}.Symbol.combine')
+            outer = [t for t in c.tests() if text(t.ast) in ('self.type != other.type', 'other.type != self.type')]
+            calls = c.nodes_with(lambda x: is_call(x, 'resolve_by_type_pair'))
+            raises = c.raises('SymbolError')
+            good = bool(outer) and bool(calls) and bool(raises) and all(outer[0].id in c.dom[n.id] for n in calls) \
+                and all(not c.cfg.reaches(n.id, r.id) for n in calls for r in raises)
+            if not good:
+                return (False, 'in Symbol.combine the type-compatibility check (SymbolError) does not precede the lag/lead resolution: a function symbol '
+                               '(lags None) can meet a variable (lags int) in resolve_by_type_pair')
+            return (True, 'index is int|str|None by construction and the SymbolError guard precedes resolve_by_type_pair (no mixed None/int pair)')
         return (ok, f'process_term_match assigns only {sorted(kinds)} to the index')
 
     def fact_functions_equal(site: Site):
@@ -481,6 +496,13 @@ def r5a_lhs_variable(R) -> None:
             mentions_type = any(k in tt for k in ('Type.ENDOGENOUS', 'Type.VARIABLE'))
             if not mentions_type:
                 continue
+            # the element predicate must select variables only
+            types_named = sorted(set(x.attr for x in ast.walk(tn.ast) if isinstance(x, ast.Attribute) and isinstance(x.value, ast.Name) and x.value.id == 'Type'))
+            if not set(types_named) <= {'ENDOGENOUS', 'VARIABLE'}:
+                R.violation(q, f'lhs-variable-predicate:{types_named}',
+                            f'the left-hand-side check `{tt[:80]}` also accepts {[t for t in types_named if t not in ("ENDOGENOUS", "VARIABLE")]} terms: a statement whose '
+                            f'left-hand side holds no variable (e.g. only backticked code) passes and is then dropped silently', where=f.where(tn))
+                return
             node = tn.ast
             neg_any = isinstance(node, ast.UnaryOp) and isinstance(node.op, ast.Not) and is_call(node.operand, 'any')
             neg_list = isinstance(node, ast.UnaryOp) and isinstance(node.op, ast.Not) and isinstance(node.operand, (ast.ListComp, ast.Name))
